@@ -12,7 +12,7 @@ Program families: repository programs, X templates and random programs, hand-sha
 the system-call shim (adjacent SVCs, SVC as first instruction, SVC at a branch target, reads at end
 of input, bytes >= 0x80, every stream class).
 """
-import os, json, shutil, collections, struct
+import subprocess, os, json, shutil, collections, struct
 import vlib, rtllib, asmlib, xlib, corpus
 
 PID = "C06"
@@ -135,14 +135,23 @@ def run(tier, replay=None):
         for k in sub:
             i, b, inp = allimgs[k]
             wd = os.path.join(d, "exe"); shutil.rmtree(wd, ignore_errors=True); os.makedirs(wd)
-            p1 = vlib.sh([os.path.join(tdir, "hexsim"), b], cwd=wd, input=inp, timeout=300)
-            p2 = vlib.sh([os.path.join(tdir, "hextb"), b, "+verilator+seed+%d" % (vlib.seed() + 5)], cwd=wd, input=inp, timeout=300)
+            # standard input is a seekable file: its offset after the tool has exited is the input the tool consumed
+            open(os.path.join(wd, "in.dat"), "wb").write(bytes(inp))
+            def with_stdin(argv):
+                fd = os.open(os.path.join(wd, "in.dat"), os.O_RDONLY)
+                try:
+                    p = subprocess.run(argv, cwd=wd, stdin=fd, stdout=subprocess.PIPE, stderr=subprocess.PIPE, timeout=300)
+                    return p, os.lseek(fd, 0, os.SEEK_CUR)
+                finally:
+                    os.close(fd)
+            p1, pos1 = with_stdin([os.path.join(tdir, "hexsim"), b])
+            p2, pos2 = with_stdin([os.path.join(tdir, "hextb"), b, "+verilator+seed+%d" % (vlib.seed() + 5)])
             nexe += 2
             o2 = p2.stdout
             mark = o2.find(b"bytes to memory\n")
             o2 = o2[mark + len(b"bytes to memory\n"):] if mark >= 0 else o2
-            history.append({'key': "exe%d" % k, 'cfg': 'hexsim-exe', 'obs': "%d:%s" % (p1.returncode, p1.stdout.hex())})
-            history.append({'key': "exe%d" % k, 'cfg': 'hextb-exe', 'obs': "%d:%s" % (p2.returncode, o2.hex())})
+            history.append({'key': "exe%d" % k, 'cfg': 'hexsim-exe', 'obs': "%d:%s:in%d" % (p1.returncode, p1.stdout.hex(), pos1)})
+            history.append({'key': "exe%d" % k, 'cfg': 'hextb-exe', 'obs': "%d:%s:in%d" % (p2.returncode, o2.hex(), pos2)})
         history.append({'key': history[0]['key'], 'cfg': 'canary', 'obs': 'CANARY'})
         hf = os.path.join(d, "hist.ndjson"); vlib.write_ndjson(hf, history)
         dout = vlib.tlc_fold("Determinism", "DeterminismF.cfg", [hf], heap="6g")[0][0][0]
@@ -180,7 +189,7 @@ def run(tier, replay=None):
         chk.set("rule", "one case = (binary, input); each observed on hexsim, on hextb under several seeds and (subset) through both executables; "
                         "non-trivial = inside the precondition (spec-decided) and compared")
         chk.sample({"id": allimgs[0][0], "history": history[0]}); chk.sample({k: v for k, v in recs[-1].items() if k != 'img'})
-        chk.assumptions += ["input consumption is observed in process (istream position), not for the executables", "hextb stdout is taken after the 'bytes to memory' banner line"]
+        chk.assumptions += ["input consumption is observed in process (istream position) and, for the executables, as the offset of a seekable standard input after exit", "hextb stdout is taken after the 'bytes to memory' banner line"]
         chk.vacuity(nok < 200, "too few runs validated (%d)" % nok)
     finally:
         shutil.rmtree(d, ignore_errors=True)
